@@ -2,7 +2,13 @@ use crate::{
     stat::{BucketWrap, LeapArray, MetricTrait},
     Result,
 };
+#[cfg(not(sentinel_verif))]
 use std::sync::{
+    atomic::{AtomicU64, Ordering},
+    Arc,
+};
+#[cfg(sentinel_verif)]
+use sentinel_verif_rt::sync::{
     atomic::{AtomicU64, Ordering},
     Arc,
 };
